@@ -35,11 +35,12 @@ def main():
         time.sleep(0.05)
         out['started_at_interrupt'] = sorted(int(f.split('_')[1]) for f in os.listdir(gdir) if f.startswith('started_'))
         out['t_first'] = time.monotonic()
-        os.kill(pid, signal.SIGINT)
+        send = (lambda: os.killpg(os.getpgrp(), signal.SIGINT)) if cfg.get('group') else (lambda: os.kill(pid, signal.SIGINT))
+        send()
         if cfg['double']:
             time.sleep(cfg.get('gap', 0.3))
             out['t_second'] = time.monotonic()
-            os.kill(pid, signal.SIGINT)
+            send()
         else:
             time.sleep(0.2)
             for i in range(n):          # let the running tasks finish
